@@ -220,7 +220,8 @@ package file
 
 //@ func (*offsetDB).parseStreams
 //@   assert at "stream := pipeline.StreamName(line[4:pos])" forall k :: (0 <= k && 4 + k + 1 < len(line) && line[4+k] == ':' && line[4+k+1] == ' ' && nochr(line[4+k+1:], ':')) ==> pos == 4 + k
-//@   cover at "streams[stream] = offset" len(stream) == 0 && pos == 4 && len(line) >= 7 && line[5] == ' '
+//@   cover at "streams[stream] = offset" len(stream) == 0
+//@   cover at "streams[stream] = offset" len(stream) == 4 && stream[1] == ':' && stream[2] == ' '
 //@   ghost bad bool = false
 //@   ensures result1 != nil ==> bad || has || linePos < 5 || line[:4] != "    " || pos < 0 || pos + 2 > len(line)
 //@   callee parseLine(c, p) (v, rest, err)
